@@ -316,7 +316,13 @@ pub(crate) fn gen_key(outfile: Option<String>, env_pass: bool) -> Result<(), any
     };
 
     let is_text = true;
-    let mut keyring = open_output(outfile.as_deref(), is_text)?;
+    let mut keyring: Box<dyn Write> = match outfile.as_deref() {
+        // Add to an existing keyring instead of replacing it.
+        Some(p) if Path::new(p).exists() => {
+            Box::new(std::fs::OpenOptions::new().append(true).open(p)?)
+        }
+        other => open_output(other, is_text)?,
+    };
     keyring.write_all(key_output.as_bytes())?;
     keyring.flush()?;
 
